@@ -274,6 +274,7 @@ def pipeline(ctx):
         cs_bs = [o for o in slips if key(o.kwargs.get("dw")) == "8" and any(l.kind == "assign" and key(l.target) == str(o) + ".i" and ".cs" in key(l.value) for l in v.leaves)]
         if not ob.need(len(cs_bs) == nph, "ext=%s: expected %d CS bit-slips, found %d" % (ext, nph, len(cs_bs))):
             continue
+        cs_win = {}
         for ph, o in enumerate(cs_bs):
             slp = o.kwargs.get("slp")
             if not (isinstance(slp, Const) and slp.v == ph):
@@ -292,6 +293,7 @@ def pipeline(ctx):
                 w = base.args[0] if base.args else (base.meta.get("like").args[0] if isinstance(base.meta.get("like"), Obj) and base.meta.get("like").args else None)
                 bw = w.v if isinstance(w, Const) else None
             exp = (nph + ph - (span - 1), nph + ph)
+            cs_win[ph] = (key(base), win)
             if ph in (0, 5, 7):
                 ob.instance("ext=%s phase %d overlap window" % (ext, ph), {"history": key(base), "history_width": bw, "window": win, "expected": exp})
             if win != exp:
@@ -332,6 +334,17 @@ def pipeline(ctx):
                 slp = o.kwargs.get("slp")
                 if not (isinstance(slp, Const) and slp.v == ph * 1):
                     ob.refute("ca-slip:%d" % ph, "phase %d's CA is slipped by %s, expected phase*ca_phase_slip = %d" % (ph, key(slp), ph), o.loc)
+                # a suppressed command must be suppressed on EVERY pin: the CA lanes of all phases are OR-ed together, so an unmasked CA pattern of a
+                # suppressed command corrupts the command still in flight
+                ins = [l for l in v.leaves if l.kind == "assign" and key(l.target) == str(o) + ".i"]
+                wins = {(key(t.args[0]), (t.args[1].v, t.args[2].v)) for l in ins for t in subterms(l.value)
+                        if isinstance(t, Op) and t.op == "slice" and isinstance(t.args[1], Const) and isinstance(t.args[2], Const) and ".ca" not in key(t.args[0])}
+                if idx % 6 == 0 and ph in (0, 7):
+                    ob.instance("ext=%s phase %d CA lane 0 mask" % (ext, ph), {"mask windows": sorted(map(str, wins)), "cs window": str(cs_win.get(ph))})
+                if ph in cs_win and cs_win[ph] not in wins:
+                    ob.refute("ca-unmasked:%s:%d" % (ext, ph), "phase %d: CA lane %d enters its bit-slip as %s, without the overlap mask its CS uses (history %s bits [%d,%d)): when the "
+                              "command of this phase is suppressed its CA bits are still OR-ed into the command in flight and change that command's bank / row / opcode" %
+                              (ph, idx % 6, key(ins[0].value)[:120] if ins else None, cs_win[ph][0], cs_win[ph][1][0], cs_win[ph][1][1]), o.loc)
 
 
 def run(ctx):
